@@ -361,8 +361,8 @@ std::vector<Diff> diffRecs(const Rec& l, const Rec& f) {
 std::string classOf(const Rec& fresh, const Input& in) {
   if (!fresh.parseOK) return "parse-error";
   if (!fresh.typeOK) return "type-error";
+  if (fresh.funcDef) return "funcdef";  // (the interpreter refuses a bare function definition: also a failing evaluation)
   if (fresh.evaluated && !fresh.evalOK) return "eval-error";
-  if (fresh.funcDef) return "funcdef";
   if (in.multiline) return "multiline";
   return "plain";
 }
@@ -534,7 +534,7 @@ Verdict historyProp(Ctx& c) {
 
 int main(int argc, char** argv) {
   std::vector<pbt::Prop> props;
-  props.push_back({"history", historyProp, 1400, 5000, false, false,
+  props.push_back({"history", historyProp, 1200, 5000, false, false,
                    "sequences of 3-30 inputs over one typed context; long-lived objects in sequence order and in a rotated order vs fresh objects per call"});
   return pbt::main(argc, argv, "C18", props);
 }
